@@ -162,7 +162,140 @@ func (c *Ctx) resolveAlgFunc() *ssa.Function {
 			out = fn
 		}
 	}
+	if out == nil {
+		// the table as data: a function from the algorithm to an entry {hash identifier, OID, key kind} and an error
+		for _, fn := range c.Funcs {
+			if fn.Parent() != nil || fn.Blocks == nil || len(fn.Params) != 1 || !c.isModNamed("SignatureAlgorithm")(fn.Params[0].Type()) {
+				continue
+			}
+			if c.algEntryFields(fn) == nil {
+				continue
+			}
+			if out != nil {
+				return nil
+			}
+			out = fn
+		}
+	}
 	return out
+}
+
+// algEntryFields: for a table function that answers (entry, error): the entry's field index per column, else nil.
+func (c *Ctx) algEntryFields(fn *ssa.Function) map[string]int {
+	res := fn.Signature.Results()
+	if res.Len() != 2 || !isErrorType(res.At(1).Type()) {
+		return nil
+	}
+	n, ok := res.At(0).Type().(*types.Named)
+	if !ok || !c.IsModObj(n.Obj()) {
+		return nil
+	}
+	st, ok := n.Underlying().(*types.Struct)
+	if !ok {
+		return nil
+	}
+	idx := map[string]int{}
+	for i := 0; i < st.NumFields(); i++ {
+		t := st.Field(i).Type()
+		switch {
+		case typeIs(t, "crypto", "Hash"):
+			idx["hashid"] = i
+		case isOID(t):
+			idx["oid"] = i
+		default:
+			if fn, isNamed := t.(*types.Named); isNamed && c.IsModObj(fn.Obj()) {
+				if b, isB := fn.Underlying().(*types.Basic); isB && b.Info()&types.IsInteger != 0 {
+					idx["key"] = i
+				}
+			}
+		}
+	}
+	if len(idx) != 3 {
+		return nil
+	}
+	return idx
+}
+
+// algCol: which column of the algorithm table tab a value in a caller is ("hashid", "hash", "oid", "key", "err"), and
+// the call of the table it comes from; "" when it is none. For the table with five results these are the extracted
+// results; for the table of entries, the fields read from the entry (directly or through a local it was put into) and,
+// for the hash, hashid.New().
+func (c *Ctx) algCol(tab *ssa.Function, v ssa.Value) (string, *ssa.Call) {
+	if tab == nil || v == nil {
+		return "", nil
+	}
+	entry := c.algEntryFields(tab)
+	tabCall := func(x ssa.Value) (*ssa.Call, int, bool) {
+		ex, ok := x.(*ssa.Extract)
+		if !ok {
+			return nil, 0, false
+		}
+		call, ok := ex.Tuple.(*ssa.Call)
+		if !ok || call.Call.StaticCallee() != tab {
+			return nil, 0, false
+		}
+		return call, ex.Index, true
+	}
+	if entry == nil {
+		call, i, ok := tabCall(v)
+		if !ok {
+			return "", nil
+		}
+		t := tab.Signature.Results().At(i).Type()
+		switch {
+		case typeIs(t, "hash", "Hash"):
+			return "hash", call
+		case typeIs(t, "crypto", "Hash"):
+			return "hashid", call
+		case isOID(t):
+			return "oid", call
+		case isErrorType(t):
+			return "err", call
+		}
+		return "key", call
+	}
+	if call, i, ok := tabCall(v); ok && i == 1 {
+		return "err", call
+	}
+	fieldCol := func(i int) string {
+		for col, fi := range entry {
+			if fi == i {
+				return col
+			}
+		}
+		return ""
+	}
+	switch x := v.(type) {
+	case *ssa.Field:
+		if call, i, ok := tabCall(x.X); ok && i == 0 {
+			return fieldCol(x.Field), call
+		}
+	case *ssa.UnOp:
+		if fa, ok := x.X.(*ssa.FieldAddr); ok && x.Op == token.MUL {
+			if al, ok := fa.X.(*ssa.Alloc); ok && al.Referrers() != nil {
+				var src *ssa.Call
+				n := 0
+				for _, ref := range *al.Referrers() {
+					if st, isSt := ref.(*ssa.Store); isSt && st.Addr == ssa.Value(al) {
+						n++
+						if call, i, ok := tabCall(st.Val); ok && i == 0 {
+							src = call
+						}
+					}
+				}
+				if n == 1 && src != nil {
+					return fieldCol(fa.Field), src
+				}
+			}
+		}
+	case *ssa.Call:
+		if calleeFullName(x) == "(crypto.Hash).New" && len(x.Call.Args) == 1 {
+			if col, call := c.algCol(tab, x.Call.Args[0]); col == "hashid" {
+				return "hash", call
+			}
+		}
+	}
+	return "", nil
 }
 
 // globalsOfType lists module package-level variables whose type satisfies pred.
